@@ -47,7 +47,10 @@ META = {
             "0..3, incl. pairs that enlarge X), float32/float64, operands as LieTensor or plain Tensor, `other` with 0..2 "
             "extra trailing components, alpha in {1,-1,2,0.5,0}; 5% extreme-but-valid rows (scale e^±40, |t| 1e6, angle 100, sigma ±20); "
             "before the random part a deterministic part (history of long-lived objects, views/aliases, corner corpus with mixed-regime "
-            "batches) runs identically for every seed; non-trivial = X not the identity or a != 0; distinct by "
+            "batches; since round 5: a poison history that interleaves every other public operation of the module on single items between "
+            "two bit-identical evaluations, float16/bfloat16/complex64 operands and every dtype of `other`, exact power-of-two scale "
+            "covariance, operands in the band between round-off and 1e-5, batches of 2^18+37 (thorough: 2^18+1, 2^20+1) with tail checks) "
+            "runs identically for every seed; non-trivial = X not the identity or a != 0; distinct by "
             "(op, api, type, dtype, regime tags, shapes)",
     "trusted": ["floating-point round-off is measured against the property's tolerances, not proved",
                 "mpmath (30 digits) matrix exponential / linear solve used as the truth of the Jinvp and Jr oracles",
